@@ -127,6 +127,15 @@ pub fn hkind_any() -> impl Strategy<Value = HKind> {
     ]
 }
 
+/// hasher family biased to the one that lets the generator place keys for this configuration
+pub fn hkind_for(cfg: &FCfg) -> BoxedStrategy<HKind> {
+    match cfg {
+        FCfg::Quotient { .. } => prop_oneof![6 => Just(HKind::Ident), 4 => hkind_any()].boxed(),
+        FCfg::Cuckoo { .. } | FCfg::Bloom { .. } => prop_oneof![5 => Just(HKind::Split), 5 => hkind_any()].boxed(),
+        FCfg::Set => hkind_any().boxed(),
+    }
+}
+
 pub fn cuckoo_cfg() -> impl Strategy<Value = FCfg> {
     (2usize..=8, 1u32..=5, prop_oneof![Just(2usize), Just(3), Just(4), Just(5), Just(8), Just(16), Just(32), Just(64)])
         .prop_map(|(bucketsize, lg, l_fp)| FCfg::Cuckoo { bucketsize, n_buckets: 1 << lg, l_fp })
